@@ -409,7 +409,271 @@ def _count_loads(node: ast.AST, name: str) -> int:
     return sum(1 for n in ast.walk(node) if isinstance(n, ast.Name) and n.id == name and isinstance(n.ctx, ast.Load))
 
 
+def _ctor_delegates(tree: ast.Module, stats: Dict[str, int]) -> None:
+    """a constructor that sets part of its initial state by calling a method of its own class whose body is nothing but
+    `self.attr = <expression without calls on self>` statements: the call is replaced by those statements (the method
+    itself stays -- it may be one the rules are anchored in)"""
+    for c in tree.body:
+        if not isinstance(c, ast.ClassDef):
+            continue
+        meths = {m_.name: m_ for m_ in c.body if isinstance(m_, ast.FunctionDef)}
+        init = meths.get("__init__")
+        if init is None:
+            continue
+        i = 0
+        while i < len(init.body):
+            st = init.body[i]
+            i += 1
+            if not (isinstance(st, ast.Expr) and isinstance(st.value, ast.Call) and isinstance(st.value.func, ast.Attribute)
+                    and isinstance(st.value.func.value, ast.Name) and st.value.func.value.id == "self" and st.value.func.attr in meths
+                    and not st.value.func.attr.startswith("__")):
+                continue
+            h = Helper(meths[st.value.func.attr], c.name)
+            if not h.ok or not h.body or h.node.decorator_list:
+                continue
+            simple = True
+            for b in h.body:
+                if not (isinstance(b, ast.Assign) and len(b.targets) == 1 and isinstance(b.targets[0], ast.Attribute)
+                        and isinstance(b.targets[0].value, ast.Name) and b.targets[0].value.id == "self"):
+                    simple = False
+                    break
+                for x in ast.walk(b.value):
+                    if isinstance(x, ast.Call) and any(isinstance(y, ast.Name) and y.id == "self" for y in ast.walk(x.func)):
+                        simple = False
+                    if isinstance(x, (ast.Lambda, ast.NamedExpr, ast.Await, ast.Yield, ast.YieldFrom)):
+                        simple = False
+            if not simple:
+                continue
+            m = _bind(h, st.value, True)
+            if m is None:
+                continue
+            if any(p != "self" and not _simple_arg(a) and sum(_count_loads(b, p) for b in h.body) != 1 for p, a in m.items()):
+                continue
+            new = [ast.copy_location(Subst(m).visit(copy.deepcopy(b)), st) for b in h.body]
+            for x in new:
+                ast.fix_missing_locations(x)
+            init.body[i - 1:i] = new
+            i += len(new) - 1
+            stats["inlined (constructor delegate)"] = stats.get("inlined (constructor delegate)", 0) + 1
+
+
+def _reference_hooks(modname: str) -> Set[str]:
+    """attributes that, in the reference tree, hold a closure of a constructor (self.h = <closure of __init__>)"""
+    import os
+    p = os.path.join(os.path.dirname(__file__), "reference", modname + ".py")
+    out: Set[str] = set()
+    try:
+        ref = ast.parse(open(p).read())
+    except (OSError, SyntaxError):
+        return out
+    for c in ref.body:
+        if isinstance(c, ast.ClassDef):
+            for init in [m_ for m_ in c.body if isinstance(m_, ast.FunctionDef) and m_.name == "__init__"]:
+                cl = {d.name for d in ast.walk(init) if isinstance(d, ast.FunctionDef) and d is not init}
+                for st in ast.walk(init):
+                    if isinstance(st, ast.Assign) and len(st.targets) == 1 and isinstance(st.targets[0], ast.Attribute) and isinstance(st.value, ast.Name) \
+                            and st.value.id in cl:
+                        out.add(st.targets[0].attr)
+    return out
+
+
+def _methods_to_closures(tree: ast.Module, modname: str, known: Set[str], stats: Dict[str, int], early: bool = False) -> None:
+    """a method the reference tree does not have, only ever reached as `self.m` from the methods of its class, is the
+    closure `def m(..)` of __init__ stored as `self.m = m` (what a maintainer turned into a method); a private attribute
+    that only forwards a constructor parameter (`self._a = a`, never written again) is read as the parameter inside such
+    closures, and its store disappears when nothing reads it any more"""
+    for c in tree.body:
+        if not isinstance(c, ast.ClassDef):
+            continue
+        meths = {m_.name: m_ for m_ in c.body if isinstance(m_, ast.FunctionDef)}
+        init = meths.get("__init__")
+        if init is None or any(isinstance(n, (ast.Global, ast.Nonlocal)) for n in ast.walk(init)):
+            continue
+        iparams = {a.arg for a in init.args.posonlyargs + init.args.args + init.args.kwonlyargs}
+        istored = {n.id for n in ast.walk(init) if isinstance(n, ast.Name) and isinstance(n.ctx, ast.Store)}
+        # forwarding attributes
+        fwd: Dict[str, str] = {}
+        stores: Dict[str, List[ast.AST]] = {}
+        for n in ast.walk(c):
+            if isinstance(n, ast.Attribute) and isinstance(n.ctx, (ast.Store, ast.Del)) and isinstance(n.value, ast.Name) and n.value.id == "self":
+                stores.setdefault(n.attr, []).append(n)
+        for st in init.body:
+            if isinstance(st, ast.Assign) and len(st.targets) == 1 and isinstance(st.targets[0], ast.Attribute) and isinstance(st.targets[0].value, ast.Name) \
+                    and st.targets[0].value.id == "self" and isinstance(st.value, ast.Name) and st.value.id in iparams and st.value.id not in istored \
+                    and st.targets[0].attr.startswith("_") and len(stores.get(st.targets[0].attr, [])) == 1:
+                fwd[st.targets[0].attr] = st.value.id
+        moved = []
+        for name, m_ in list(meths.items()):
+            q = f"{modname}.{c.name}.{name}"
+            if q in known or name.startswith("__") or m_.decorator_list or not m_.args.args or m_.args.args[0].arg != "self":
+                continue
+            if any(isinstance(n, (ast.Global, ast.Nonlocal, ast.Yield, ast.YieldFrom, ast.Await)) for n in ast.walk(m_)) or \
+                    any(isinstance(n, ast.Name) and n.id == "super" for n in ast.walk(m_)):
+                continue
+            refs = [n for n in ast.walk(tree) if isinstance(n, ast.Attribute) and n.attr == name]
+            if not refs or not all(isinstance(n.value, ast.Name) and n.value.id == "self" and isinstance(n.ctx, ast.Load) for n in refs):
+                continue
+            if early:
+                # before ordinary inlining only: a method used as a value (it cannot be inlined away), or one that takes the
+                # place of a hook attribute of the reference tree
+                par_ = {id(ch): p_ for p_ in ast.walk(c) for ch in ast.iter_child_nodes(p_)}
+                as_value = any(not (isinstance(par_.get(id(n)), ast.Call) and par_[id(n)].func is n) for n in refs)
+                if not as_value and name not in _reference_hooks(modname):
+                    continue
+            inside_cls = {id(n) for n in ast.walk(c)}
+            if not all(id(n) in inside_cls for n in refs) or name in stores:
+                continue
+            # names the closure would capture from __init__ by accident (its own locals / parameters shadow nothing there)
+            own = {a.arg for a in m_.args.posonlyargs + m_.args.args + m_.args.kwonlyargs} | \
+                {n.id for n in ast.walk(m_) if isinstance(n, ast.Name) and isinstance(n.ctx, ast.Store)}
+            free = {n.id for n in ast.walk(m_) if isinstance(n, ast.Name) and isinstance(n.ctx, ast.Load)} - own
+            if free & ((iparams | istored) - {"self"}):
+                continue       # a global of that name is meant in the method; in the closure it would be the constructor's local
+            moved.append((name, m_))
+        if not moved:
+            continue
+        at = 1 if init.body and isinstance(init.body[0], ast.Expr) and isinstance(init.body[0].value, ast.Constant) else 0
+        for name, m_ in moved:
+            c.body.remove(m_)
+            d = copy.deepcopy(m_)
+            d.args.args = d.args.args[1:]
+
+            class F(ast.NodeTransformer):
+                def visit_Attribute(self, a):
+                    self.generic_visit(a)
+                    if isinstance(a.value, ast.Name) and a.value.id == "self" and isinstance(a.ctx, ast.Load) and a.attr in fwd \
+                            and fwd[a.attr] not in own_:
+                        return ast.copy_location(ast.Name(fwd[a.attr], ast.Load()), a)
+                    return a
+            own_ = {a.arg for a in d.args.posonlyargs + d.args.args + d.args.kwonlyargs} | \
+                {n.id for n in ast.walk(d) if isinstance(n, ast.Name) and isinstance(n.ctx, ast.Store)}
+            F().visit(d)
+            d.returns = None
+            setter = ast.Assign(targets=[ast.Attribute(value=ast.Name("self", ast.Load()), attr=name, ctx=ast.Store())], value=ast.Name(name, ast.Load()))
+            for x in (d, setter):
+                ast.copy_location(x, init.body[at] if at < len(init.body) else init)
+                ast.fix_missing_locations(x)
+            init.body[at:at] = [d, setter]
+            at += 2
+            stats["method -> closure"] = stats.get("method -> closure", 0) + 1
+        # calls self.m(..) inside __init__ and inside the moved closures reach the closure directly
+        names = {n for n, _ in moved}
+
+        class G(ast.NodeTransformer):
+            def visit_Attribute(self, a):
+                self.generic_visit(a)
+                if isinstance(a.value, ast.Name) and a.value.id == "self" and isinstance(a.ctx, ast.Load) and a.attr in names:
+                    return ast.copy_location(ast.Name(a.attr, ast.Load()), a)
+                return a
+        for i_, st in enumerate(init.body):
+            if isinstance(st, ast.Assign) and isinstance(st.value, ast.Name) and st.value.id in names and isinstance(st.targets[0], ast.Attribute) \
+                    and st.targets[0].attr == st.value.id:
+                continue
+            init.body[i_] = G().visit(st)
+        # forwarding stores nobody reads any more
+        for attr, p_ in fwd.items():
+            if not any(isinstance(n, ast.Attribute) and n.attr == attr and isinstance(n.ctx, ast.Load) for n in ast.walk(tree)):
+                for st in list(init.body):
+                    if isinstance(st, ast.Assign) and len(st.targets) == 1 and isinstance(st.targets[0], ast.Attribute) and st.targets[0].attr == attr \
+                            and isinstance(st.value, ast.Name) and st.value.id == p_:
+                        init.body.remove(st)
+        ast.fix_missing_locations(tree)
+
+
+def _returning_hooks(tree: ast.Module, stats: Dict[str, int]) -> None:
+    """a hook attribute `self.h` that only ever holds closures of __init__ ending in `return E`, and is only ever used as
+    `self.a = self.h()` (one attribute a): the closures store (`self.a = E`) and the sites just call (`self.h()`) --
+    same stores at the same moments"""
+    for c in tree.body:
+        if not isinstance(c, ast.ClassDef):
+            continue
+        init = next((m_ for m_ in c.body if isinstance(m_, ast.FunctionDef) and m_.name == "__init__"), None)
+        if init is None:
+            continue
+        parent = {id(ch): p_ for p_ in ast.walk(c) for ch in ast.iter_child_nodes(p_)}
+        hooks: Dict[str, List[ast.Assign]] = {}
+        bad = set()
+        for n in ast.walk(c):
+            if isinstance(n, ast.Attribute) and isinstance(n.value, ast.Name) and n.value.id == "self" and isinstance(n.ctx, ast.Store):
+                st = parent.get(id(n))
+                inside_init = any(st is x for x in ast.walk(init))
+                if isinstance(st, ast.Assign) and len(st.targets) == 1 and isinstance(st.value, ast.Name) and inside_init:
+                    hooks.setdefault(n.attr, []).append(st)
+                else:
+                    bad.add(n.attr)
+        for h, sts in hooks.items():
+            if h in bad:
+                continue
+            # the closures
+            cl = []
+            for st in sts:
+                defs = [d for d in ast.walk(init) if isinstance(d, ast.FunctionDef) and d.name == st.value.id and d is not init]
+                if not defs:
+                    cl = None
+                    break
+                cl += defs
+            if not cl:
+                continue
+            okc = True
+            for d in cl:
+                rets = [r for r in ast.walk(d) if isinstance(r, ast.Return)]
+                loads = [n for n in ast.walk(init) if isinstance(n, ast.Name) and n.id == d.name and isinstance(n.ctx, ast.Load)]
+                if len(rets) != 1 or rets[0] is not d.body[-1] or rets[0].value is None or d.args.args or d.args.vararg or d.args.kwarg or d.args.kwonlyargs \
+                        or any(parent.get(id(n)) not in sts for n in loads):
+                    okc = False
+            if not okc:
+                continue
+            uses = [n for n in ast.walk(tree) if isinstance(n, ast.Attribute) and n.attr == h and isinstance(n.ctx, ast.Load)]
+            targets = set()
+            sites = []
+            for u in uses:
+                call = parent.get(id(u))
+                st = parent.get(id(call)) if isinstance(call, ast.Call) and call.func is u and not call.args and not call.keywords else None
+                if not (isinstance(u.value, ast.Name) and u.value.id == "self" and isinstance(st, ast.Assign) and st.value is call and len(st.targets) == 1
+                        and isinstance(st.targets[0], ast.Attribute) and isinstance(st.targets[0].value, ast.Name) and st.targets[0].value.id == "self"):
+                    targets.add(None)
+                    break
+                targets.add(st.targets[0].attr)
+                sites.append(st)
+            if len(targets) != 1 or None in targets or not sites:
+                continue
+            a = next(iter(targets))
+            for d in {id(x): x for x in cl}.values():
+                r = d.body[-1]
+                d.body[-1] = ast.copy_location(ast.Assign(targets=[ast.Attribute(value=ast.Name("self", ast.Load()), attr=a, ctx=ast.Store())], value=r.value), r)
+                ast.fix_missing_locations(d.body[-1])
+            for st in sites:
+                for b in _bodies_of(c):
+                    if st in b:
+                        b[b.index(st)] = ast.fix_missing_locations(ast.copy_location(ast.Expr(value=st.value), st))
+            stats["returning hook -> storing hook"] = stats.get("returning hook -> storing hook", 0) + 1
+
+
+def _bodies_of(node: ast.AST):
+    for x in ast.walk(node):
+        for fld in ("body", "orelse", "finalbody"):
+            b = getattr(x, fld, None)
+            if isinstance(b, list) and b and isinstance(b[0], ast.stmt):
+                yield b
+        if isinstance(x, ast.Try):
+            for h_ in x.handlers:
+                yield h_.body
+
+
 def inline_module(tree: ast.Module, modname: str, known: Set[str], stats: Dict[str, int]) -> None:
+    _methods_to_closures(tree, modname, known, stats, early=True)
+    _inline_rounds(tree, modname, known, stats)
+    # what ordinary inlining leaves behind: architecture-level changes of a class (hooks, closures turned into methods,
+    # a constructor delegating to a method); undo them, then inline again
+    before = dict(stats)
+    _returning_hooks(tree, stats)
+    _methods_to_closures(tree, modname, known, stats)
+    _ctor_delegates(tree, stats)
+    if stats != before:
+        _inline_rounds(tree, modname, known, stats)
+
+
+def _inline_rounds(tree: ast.Module, modname: str, known: Set[str], stats: Dict[str, int]) -> None:
     for _round in range(4):
         helpers: Dict[Tuple[Optional[str], str], Helper] = {}
         for n in tree.body:
